@@ -226,7 +226,9 @@ func TestC10_SlowConsumers(t *testing.T) {
 		}
 		var late []lateSet
 		for _, v := range victims {
-			if v.n.kind != "sub" || v.witness.totalCount()-v.base <= kcache.EventBufsiz+2 || !rapid.Bool().Draw(t, "partialResume") {
+			// (untyped trees only: a typed subscription has two buffers in series, and what its forwarding
+			// goroutine still holds in the first one may legitimately take the freed slots first)
+			if cfg.typed != "" || v.n.kind != "sub" || v.witness.totalCount()-v.base <= kcache.EventBufsiz+2 || !rapid.Bool().Draw(t, "partialResume") {
 				continue
 			}
 			r := rapid.IntRange(25, 70).Draw(t, "resumeReads")
